@@ -247,6 +247,30 @@ def inherit_cases(rng, presets, quick):
             shape = "local+reset"
         out.append({"shape": shape, "files": {".sloc-guard.toml": child, "base.toml": vline(bv) + '\n[scanner]\nexclude = ["old/**"]\n' + INH_BODY},
                     "flat": vline(ev) + flat_extra + INH_BODY, "muts": ["extends base.toml", "child version %r" % (cv,), "base version %r" % (bv,)]})
+    # $reset markers in the TABLE arrays (content.rules by pattern, structure.rules by scope): the marker element is not a typed
+    # rule (no max_lines), every loading path strips it before the document is typed; alone, followed by a real rule, carrying a
+    # field of the wrong type; in a single file and in a leaf whose base has rules of its own
+    RULE = '[[content.rules]]\npattern = "**/gen/**"\nmax_lines = 50\n'
+    SRULE = '[[structure.rules]]\nscope = "src/**"\nmax_files = 30\n'
+    BASE_RULES = 'version = "2"\n' + INH_BODY + '[[content.rules]]\npattern = "**/old/**"\nmax_lines = 9\n[structure]\nmax_files = 100\n' \
+                 '[[structure.rules]]\nscope = "old/**"\nmax_files = 7\n'
+    markers = [("content-marker-only", '[[content.rules]]\npattern = "$reset"\n', ""),
+               ("content-marker+rule", '[[content.rules]]\npattern = "$reset"\n' + RULE, RULE),
+               ("content-marker-with-untyped-field", '[[content.rules]]\npattern = "$reset"\nmax_lines = "many"\n' + RULE, RULE),
+               ("structure-marker-only", '[[structure.rules]]\nscope = "$reset"\n', ""),
+               ("structure-marker+rule", '[[structure.rules]]\nscope = "$reset"\n' + SRULE, SRULE),
+               ("both-markers", '[[content.rules]]\npattern = "$reset"\n[[structure.rules]]\nscope = "$reset"\n', ""),
+               ("content-marker-not-first", RULE + '[[content.rules]]\npattern = "$reset"\n', None)]
+    for name, leaf, flat in markers:
+        bad = 'version = "2"\n[content]\nmax_lines = "not typed"\n'      # what a misplaced marker must amount to: a refused document
+        out.append({"shape": "reset-rule", "files": {".sloc-guard.toml": 'version = "2"\n' + INH_BODY + leaf},
+                    "flat": ('version = "2"\n' + INH_BODY + flat) if flat is not None else bad, "muts": ["table-array $reset marker, no extends", name]})
+        out.append({"shape": "local+reset-rule", "files": {".sloc-guard.toml": 'extends = "base.toml"\n' + leaf, "base.toml": BASE_RULES},
+                    "flat": ('version = "2"\n' + INH_BODY + "[structure]\nmax_files = 100\n"
+                             + ("" if "content" in name or name == "both-markers" else '[[content.rules]]\npattern = "**/old/**"\nmax_lines = 9\n')
+                             + ("" if "structure" in name or name == "both-markers" else '[[structure.rules]]\nscope = "old/**"\nmax_files = 7\n')
+                             + flat) if flat is not None else bad,
+                    "muts": ["extends base.toml (which has rules)", "table-array $reset marker in the leaf", name]})
     # a chain of three: the unsupported version sits in the grandparent only
     out.append({"shape": "chain", "files": {".sloc-guard.toml": 'extends = "mid.toml"\n', "mid.toml": 'extends = "base.toml"\n[content]\nmax_lines = 300\n',
                                             "base.toml": 'version = "1"\n' + INH_BODY},
@@ -599,6 +623,16 @@ def run(ctx):
                     elif iv == "R" and not text.strip():
                         viol.append({"kind": "property-oracle", "class": None, "what": "%s: exit 2 without any diagnostic" % cmd, "files": c["files"],
                                      "toml": c["flat"], "argv": []})
+        # O3 on the loading paths: config validate accepts exactly what check accepts
+        for prof in ("D", "R"):
+            vc = verdict_of_exit("check", res[prof]["check"][0])
+            vv = verdict_of_exit("validate", res[prof]["validate"][0])
+            if vc in ("A", "R") and vv in ("A", "R") and vc != vv:
+                viol.append({"kind": "property-oracle", "class": None,
+                             "what": "config validate exits %d where check exits %d on a configuration loaded through %s (%s): %s" % (
+                                 res[prof]["validate"][0], res[prof]["check"][0], c["shape"], ", ".join(c["muts"]),
+                                 (res[prof]["validate"][1] if vv == "R" else res[prof]["check"][1]).strip()[-200:]),
+                             "files": c["files"], "toml": c["flat"], "argv": [], "muts": c["muts"], "profile": prof})
     ctx.cov["inherited_documents"] = len(inh)
 
     # ---- duration flags of stats (value classes) through the CLI, both profiles, against parse_duration of the model
